@@ -416,3 +416,6 @@ _reg(Profile(name="comm_overlap", device="free", n_free_kernels=(2, 12), tmax_ch
                            "sm80_xmma_gemm", "ncclKernel_x")))
 _reg(Profile(name="loader_mix", n_steps=(0, 3), n_ranks=(1, 3), p_nonevents=0.9, p_string_pid_span=0.6, p_missing_kernel=0.2, p_orphan_kernel=0.3,
              p_sync=0.5, allow_host_stream_arg=True))
+_reg(Profile(name="steps_mix", n_steps=(0, 5), n_ranks=(1, 3), tmax_choices=(12, 24, 40, 110, 600), p_missing_kernel=0.15, p_orphan_kernel=0.2,
+             p_sync=0.4, p_launch=0.5))
+_reg(Profile(name="steps_tiny", n_steps=(2, 4), n_ranks=(1, 2), tmax_choices=(8, 10, 14), p_launch=0.5, p_same_ts_as_launch=0.3))
